@@ -234,4 +234,83 @@ theorem decFactorCLax_accepts_missing :
     decFactorC { vals := [[.missing], [.int 1]] } = .error .lib ∧
     decFactorC { vals := [[.int 1], [.int 1]] } = .ok (.int 1) := by decide
 
+/-! ### finding F24b (repaired): the bit-map of compressed data -/
+
+/-- what the repaired `define_bitmap` of the compressed DECODER returns is subset 0's slice, and EVERY subset holds it -/
+theorem decLastValuesC_ok {n : Nat} {s : St} {l : List Val} (h : decLastValuesC n s = .ok l) :
+    decLastValues n s = .ok l ∧ ∀ row ∈ s.vals, lastSlice n row = l := by
+  unfold decLastValuesC at h
+  cases hb : decLastValues n s with
+  | error e => rw [hb] at h; cases h
+  | ok bm =>
+    rw [hb] at h
+    simp only [bind, Except.bind, pure, Except.pure] at h
+    split at h
+    · next hall =>
+      injection h with h
+      subst h
+      exact ⟨rfl, fun row hr => by simpa using List.all_eq_true.mp hall row hr⟩
+    · cases h
+
+theorem decLastValues_eq_slice {n : Nat} {s : St} {l : List Val} (h : decLastValues n s = .ok l) :
+    ∃ l0 r, s.vals = l0 :: r ∧ l = lastSlice n l0 := by
+  unfold decLastValues at h
+  split at h
+  · cases h
+  · next l0 r hv => injection h with h; exact ⟨l0, r, hv, h.symm⟩
+
+theorem decLastValuesC_of {n : Nat} {s : St} {l : List Val} (h : decLastValues n s = .ok l)
+    (hall : ∀ row ∈ s.vals, lastSlice n row = l) : decLastValuesC n s = .ok l := by
+  unfold decLastValuesC
+  rw [h]
+  simp only [bind, Except.bind, pure, Except.pure]
+  rw [if_pos (List.all_eq_true.mpr (fun row hr => by simp [hall row hr]))]
+
+theorem decLastValuesC_iff {n : Nat} {s : St} {l : List Val} :
+    decLastValuesC n s = .ok l ↔ decLastValues n s = .ok l ∧ ∀ row ∈ s.vals, lastSlice n row = l :=
+  ⟨decLastValuesC_ok, fun h => decLastValuesC_of h.1 h.2⟩
+
+/-- a refusal by the comparison itself is the library error -/
+theorem decLastValuesC_err {n : Nat} {s : St} {e : Err} (h : decLastValuesC n s = .error e) :
+    decLastValues n s = .error e ∨ e = .lib := by
+  unfold decLastValuesC at h
+  cases hb : decLastValues n s with
+  | error e' => rw [hb] at h; left; exact h
+  | ok bm =>
+    rw [hb] at h
+    simp only [bind, Except.bind, pure, Except.pure] at h
+    split at h
+    · cases h
+    · injection h with h; right; exact h.symm
+
+/-- the compressed ENCODER: every subset supplies the bit-map of subset 0 -/
+theorem encLastValuesC_ok {n : Nat} {s : St} {l : List Val} (h : encLastValuesC n s = .ok l) :
+    encLastValues n s = .ok l ∧ ∀ row ∈ s.vals, encSlice n s.idx row = l := by
+  unfold encLastValuesC at h
+  cases hb : encLastValues n s with
+  | error e => rw [hb] at h; cases h
+  | ok bm =>
+    rw [hb] at h
+    simp only [bind, Except.bind, pure, Except.pure] at h
+    split at h
+    · next hall =>
+      injection h with h
+      subst h
+      exact ⟨rfl, fun row hr => by simpa using List.all_eq_true.mp hall row hr⟩
+    · cases h
+
+theorem encLastValuesC_of {n : Nat} {s : St} {l : List Val} (h : encLastValues n s = .ok l)
+    (hall : ∀ row ∈ s.vals, encSlice n s.idx row = l) : encLastValuesC n s = .ok l := by
+  unfold encLastValuesC
+  rw [h]
+  simp only [bind, Except.bind, pure, Except.pure]
+  rw [if_pos (List.all_eq_true.mpr (fun row hr => by simp [hall row hr]))]
+
+/-- the old reader (subset 0 only) accepts the bit-maps `0 1 | 1 1`, the repaired one refuses them with the library error -/
+theorem decLastValues_accepts_differing :
+    decLastValues 2 { vals := [[.int 1, .int 0], [.int 1, .int 1]] } = .ok [.int 0, .int 1] ∧
+    decLastValuesC 2 { vals := [[.int 1, .int 0], [.int 1, .int 1]] } = .error .lib ∧
+    decLastValuesC 2 { vals := [[.int 1, .int 0], [.int 1, .missing]] } = .error .lib ∧
+    decLastValuesC 2 { vals := [[.int 1, .int 0, .int 7], [.int 1, .int 0, .int 8]] } = .ok [.int 0, .int 1] := by decide
+
 end Bufr
